@@ -168,3 +168,32 @@ Proof.
   intros UK SS. unfold unsafe. rewrite unsafe_fuel_S. apply self_unsafe_nonempty_g; auto.
   unfold on_path. destruct (h_id h); reflexivity.
 Qed.
+
+(* the same for every kind whose audit looks at the header's name: generic nodes and SliceNode *)
+Theorem self_unsafe_not_safe_named E T root h subs u :
+  names_own (h_kind h) = true -> self_safe E T h = Ok false ->
+  unsafe E T root (Node h subs) = Ok u -> u <> [].
+Proof.
+  intros UK SS. unfold names_own in UK. destruct (ukind_of (h_kind h)) eqn:K; try discriminate UK.
+  - unfold unsafe. rewrite unsafe_fuel_S. cbn [unsafe_g]. rewrite K. unfold own_unsafe. rewrite SS. cbn [bind].
+    destruct (node_name h) as [nm|e]; cbn [bind]; intros X; [|discriminate X]. injection X as <-. discriminate.
+  - apply self_unsafe_not_safe; assumption.
+Qed.
+
+(* ... and for FunctionNode at the current protocol (the audited name is f"{module}.{class}" of the same header):
+   the only kind whose row can be self-unsafe and fully safe is the protocol-0 FunctionNode (finding D31-FunctionNode@0) *)
+Theorem self_unsafe_not_safe_but_v0 E T root h subs u :
+  h_kind h <> KFunctionV0 -> self_safe E T h = Ok false ->
+  unsafe E T root (Node h subs) = Ok u -> u <> [].
+Proof.
+  intros NV SS. destruct (names_own (h_kind h)) eqn:NO; [apply self_unsafe_not_safe_named; assumption|].
+  unfold names_own in NO. destruct (ukind_of (h_kind h)) eqn:K; try discriminate NO.
+  - (* JsonNode is always self-safe *)
+    assert (KJ : h_kind h = KJson) by (destruct (h_kind h); try discriminate K; reflexivity).
+    unfold self_safe in SS. rewrite KJ in SS. discriminate SS.
+  - assert (KF : h_kind h = KFunction) by (destruct (h_kind h); try discriminate K; try reflexivity; congruence).
+    unfold unsafe. rewrite unsafe_fuel_S. cbn [unsafe_g]. rewrite K. unfold fn_unsafe, function_name. rewrite KF.
+    unfold self_safe, node_name, jqual in SS. rewrite KF in SS. cbn [kind_eqb] in SS.
+    destruct (h_module h) as [| | | |a| |]; try discriminate SS. destruct (h_class h) as [| | | |b| |]; try discriminate SS.
+    cbn [bind] in SS. injection SS as SS. cbn [jfmt bind]. rewrite SS. intros X. injection X as <-. discriminate.
+Qed.
